@@ -44,6 +44,13 @@ def histories(rng, tier):
                 ptxt = ','.join(map(str, pix))
                 if rr < 0.3 and f == c.primary:
                     h += ['nvalid m', 'upd v op=replace none=1 pix=%s' % ptxt, 'nvalid m']
+                elif rng.random() < 0.25 and pix:
+                    # a pixel range through the view, on either side of the size threshold: a row over valid pixels
+                    # only is accepted, one that also covers an invalid pixel must be refused on BOTH paths
+                    a = min(pix)
+                    b = a + rng.choice([1, 1, 2, 3])
+                    h += ['nvalid m', 'updr v op=replace ranges=%d:%d val=%s path=%s' % (
+                        a, min(b, c.npix), fc.val(rng), rng.choice(['slice', 'expand'])), 'nvalid m']
                 elif rng.random() < 0.5:
                     h += ['nvalid m', 'upd v op=replace pix=%s val=%s' % (ptxt, fc.val(rng)), 'nvalid m']
                 else:
@@ -75,4 +82,4 @@ def nontrivial(h):
 def must_reject(line):
     """C14: writes through a field view that would create new valid pixels must be rejected"""
     t = line.split()
-    return t[0] == 'upd' and t[1] == 'v'
+    return t[0] in ('upd', 'updr') and t[1] == 'v'
